@@ -1,8 +1,14 @@
 (* C01 -- reading arbitrary bytes never panics and never escapes the supplied segments.
-   Statements only; each is closed by [exact] of a lemma proved in Core/SafetyProofs.v.
+   Statements only; each is closed by [exact] of a lemma proved in Core/SafetyProofs.v (reader),
+   Value/EqualSafe.v, Value/CanonSafe.v, Core/CopySafe.v (consumers), Core/EndToEnd.v and
+   Frame/FramePackedSafe.v (from raw bytes).  NOT covered by any theorem here: text.Marshal and
+   pogs.Extract on hostile bytes (their models are not composed with the reader model; C19 / C20
+   runs only, see LEVEL_NOTE in props/C01.py).
 
-   Standing assumptions (trusted base): [msg_ok m]: every segment has at most maxSegmentSize
-   (2^32-8) bytes and every byte is 0..255; uint/int are 64 bits; the repaired configuration
+   Standing assumptions: [msg_ok m]: every segment has at most maxSegmentSize (2^32-8) bytes and
+   every byte is 0..255 - a hypothesis of the theorems of the first sections, PROVED in the last
+   section for every message the framing layer hands out (C01_unmarshal_msg_ok ...), so trusted only
+   for a Message over an application-supplied Arena; uint/int are 64 bits; the repaired configuration
    (cfg_strict, cfg_root, fx_bit true); the model Core/Reader.v, Core/ReadOps.v corresponds to
    the Go code as far as the C01 correspondence run shows. *)
 From CV Require Import Core.SafetyProofs.
